@@ -807,12 +807,41 @@ func ruleInvalidate(c *Ctx) {
 	c.census("G-INVALIDATE", "change/save handlers", n, 2)
 	// the invalidation method deletes under the loader's lock
 	ipk := c.P.ByRel["internal/include"]
-	for _, name := range []string{"Loader.InvalidateFile", "Loader.ClearCache"} {
-		fd := c.P.FuncDecl("internal/include", name)
-		if fd == nil {
-			c.undecided("G-INVALIDATE", "include."+name, "anchor", token.NoPos, "method not found")
-			continue
+	// the invalidation methods: exported Loader methods that delete from / replace a map field
+	var invFds []*ast.FuncDecl
+	for _, f := range ipk.Syntax {
+		for _, d := range f.Decls {
+			fd, ok := d.(*ast.FuncDecl)
+			if !ok || fd.Body == nil || recvTypeName(fd) != "Loader" || !fd.Name.IsExported() {
+				continue
+			}
+			mut := false
+			ast.Inspect(fd.Body, func(x ast.Node) bool {
+				switch s := x.(type) {
+				case *ast.CallExpr:
+					if identOf(s.Fun).Name == "delete" {
+						mut = true
+					}
+				case *ast.AssignStmt:
+					for _, l := range s.Lhs {
+						if t := ipk.TypesInfo.TypeOf(l); t != nil {
+							if _, isMap := t.Underlying().(*types.Map); isMap {
+								if _, isSel := ast.Unparen(l).(*ast.SelectorExpr); isSel {
+									mut = true
+								}
+							}
+						}
+					}
+				}
+				return true
+			})
+			if mut {
+				invFds = append(invFds, fd)
+			}
 		}
+	}
+	c.census("G-INVALIDATE", "loader methods that drop cache entries", len(invFds), 1)
+	for _, fd := range invFds {
 		locks, mutates := false, false
 		ast.Inspect(fd.Body, func(x ast.Node) bool {
 			if call, ok := x.(*ast.CallExpr); ok {
